@@ -250,6 +250,9 @@ func rAcct(on bool, kind string) *config.Accounter {
 	if kind == "syslog" {
 		return &config.Accounter{Name: "syslog", Type: config.SYSLOG}
 	}
+	if kind == "stderr" {
+		return &config.Accounter{Name: "stderr", Type: config.STDERR} // a type the harness registers no factory for
+	}
 	return &config.Accounter{Name: "file", Type: config.FILE}
 }
 func rCommands(cs []RCommand) []config.Command {
